@@ -660,7 +660,7 @@ func runBigReuse(in bigIn) []Sx {
 	return append(fs, T("obs", T("runs", runs...)))
 }
 
-func genBig(r rnd, shape string, size int) bigIn {
+func genBig(r rnd, shape string, size int, short bool) bigIn {
 	sp := scaleIn{shape: shape, size: size, hmode: 0, tmode: 2, gseed: int64(r.Intn(1 << 30)), dist: r.Intn(3), opts: []int{0, 0, optPrintActions}[r.Intn(3)]}
 	if r.Intn(3) == 0 {
 		sp.hmode = 1 // hashes descending, the slice reversed
@@ -673,6 +673,12 @@ func genBig(r rnd, shape string, size int) bigIn {
 		if droppable(ps, d) {
 			drops = append(drops, d)
 		}
+	}
+	for len(drops) < 3 { // no droppable commit found (never seen): run the whole history instead
+		drops = append(drops, -1)
+	}
+	if short { // three runs: two different middles, the first again
+		return bigIn{sp: sp, drops: []int{drops[0], drops[1], drops[0]}}
 	}
 	return bigIn{sp: sp, drops: append(drops, -1, drops[0])}
 }
@@ -734,14 +740,18 @@ func reuseStreams(c *Config, workers int) {
 	}
 	flush()
 	if c.Tier != "search" {
-		c.Emit(runBigReuse(genBig(r, "comb", 600+r.Intn(30)))...)
-		c.Emit(runBigReuse(genBig(r, "diamonds", 400+r.Intn(10)))...)
-		c.Emit(runBigReuse(genBig(r, "bush", 1000+r.Intn(30)))...)
+		c.Emit(runBigReuse(genBig(r, "comb", 600+r.Intn(30), false))...)
+		c.Emit(runBigReuse(genBig(r, "diamonds", 400+r.Intn(10), false))...)
+		c.Emit(runBigReuse(genBig(r, "bush", 1000+r.Intn(30), false))...)
 		if c.Thorough() {
-			for _, sh := range []string{"comb", "diamonds", "ladder", "roots", "bush"} {
-				c.Emit(runBigReuse(genBig(r, sh, 10000+r.Intn(300)))...)
+			// the planner is superlinear in these shapes: three runs each (20 .. 60 s per case)
+			for _, sh := range []string{"comb", "ladder"} {
+				c.Emit(runBigReuse(genBig(r, sh, 10000+r.Intn(300), true))...)
 			}
-			c.Emit(runBigReuse(genBig(r, "comb", 32768+r.Intn(3)))...)
+			for _, sh := range []string{"diamonds", "roots", "bush"} {
+				c.Emit(runBigReuse(genBig(r, sh, 3000+r.Intn(100), true))...)
+			}
+			c.Emit(runBigReuse(genBig(r, "comb", 16385+r.Intn(3), true))...) // 2^15 + 1 commits on the main line
 		}
 	}
 }
